@@ -791,6 +791,11 @@ def normalize_slice(idx, dim):
         elif step < 0:
             if start >= dim - 1:
                 start = None
+            elif start < 0:
+                # ``slice.indices`` clips a start that lies before the first
+                # element to -1: nothing is selected.  Do not hand -1 on, it
+                # would be read as the position of the last element.
+                return slice(0, 0, 1)
             if stop < 0:
                 stop = None
         return slice(start, stop, step)
